@@ -113,6 +113,9 @@ pub enum Op {
     FilterMapi,
     Fold(bool),
     FoldUpdate(bool),
+    /// decoder 2: incr_unordered_fold without update closure whose accumulator is a copy of the map
+    /// (add = insert, remove = remove the key): the order of remove and add matters
+    FoldCopy(bool),
     Merge,
     Partition,
     PartitionMapi,
@@ -133,6 +136,7 @@ fn expected(op: Op, a: &BT, b: &BT) -> Out {
         Op::Mapi => Out::Map(a.iter().map(|(k, v)| (*k, f_mapi(*k, *v))).collect()),
         Op::FilterMapi => Out::Map(a.iter().filter_map(|(k, v)| f_filter_mapi(*k, *v).map(|x| (*k, x))).collect()),
         Op::Fold(_) | Op::FoldUpdate(_) => Out::Num(a.iter().map(|(k, v)| w(*k, *v)).sum::<i64>() + 1000),
+        Op::FoldCopy(_) => Out::Map(a.clone()),
         Op::Merge => {
             let keys: BTreeSet<i32> = a.keys().chain(b.keys()).copied().collect();
             Out::Map(keys.into_iter().filter_map(|k| f_merge(a.get(&k).copied(), b.get(&k).copied()).map(|x| (k, x))).collect())
@@ -200,6 +204,23 @@ where
                 let o = i.observe();
                 Box::new(move || o.try_get_value().map(Out::Num).map_err(|e| format!("{e:?}")))
             })
+        }
+        Op::FoldCopy(rev) => {
+            let i: Incr<BT> = a.incr_unordered_fold(
+                BT::new(),
+                |mut acc: BT, k: &i32, v: &i32| {
+                    call("add", *k);
+                    acc.insert(*k, *v);
+                    acc
+                },
+                |mut acc: BT, k: &i32, _v: &i32| {
+                    call("remove", *k);
+                    acc.remove(k);
+                    acc
+                },
+                rev,
+            );
+            reader_map::<BT>(&i)
         }
         Op::FoldUpdate(rev) => {
             let i: Incr<i64> = a.incr_unordered_fold_update(
@@ -517,6 +538,10 @@ fn pick_type_and_op(ch: &mut Choices) -> (usize, Op) {
         Op::FoldUpdate(false),
         Op::FoldUpdate(true),
     ];
+    if crate::choice::dv() >= 2 {
+        ops.push(Op::FoldCopy(false));
+        ops.push(Op::FoldCopy(true));
+    }
     if ty != 1 {
         ops.push(Op::Merge);
     }
@@ -607,6 +632,7 @@ pub fn run_diff_case(bytes: &[u8], tier: Tier) -> (Vec<Failure>, Vec<String>, bo
             Op::FilterMapi => "op_incr_filter_mapi",
             Op::Fold(_) => "op_incr_unordered_fold",
             Op::FoldUpdate(_) => "op_incr_unordered_fold_update",
+            Op::FoldCopy(_) => "op_incr_unordered_fold_keyed_accumulator",
             Op::Merge => "op_incr_merge",
             Op::Partition => "op_incr_partition",
             Op::PartitionMapi => "op_incr_partition_mapi",
@@ -738,7 +764,8 @@ pub fn run_c16_case(bytes: &[u8], tier: Tier) -> Outcome {
     let filter = ch.flag(1, 2);
     let v2 = crate::choice::dv() >= 2;
     // 0 none, 1 PartialEq, 2 Fn(eq); decoder 2: 3 = Fn(same parity), a cutoff coarser than equality
-    let cutoff = ch.choose(if v2 { 4 } else { 3 });
+    // 4 = Cutoff::Never: every recompute of a per-key node reaches the user's per-key closures
+    let cutoff = ch.choose(if v2 { 5 } else { 3 });
     let kf = if v2 {
         [KeyFn::PureMap, KeyFn::Map2Outer, KeyFn::BindOnValue, KeyFn::IgnoresInput, KeyFn::SharedNode, KeyFn::BindOnOuter][ch.choose(6)]
     } else {
@@ -779,6 +806,7 @@ pub fn run_c16_case(bytes: &[u8], tier: Tier) -> Outcome {
         let cut = || match cutoff {
             1 => Cutoff::PartialEq,
             3 => Cutoff::Fn(|a: &i32, b: &i32| a.rem_euclid(2) == b.rem_euclid(2)),
+            4 => Cutoff::Never,
             _ => Cutoff::Fn(|a: &i32, b: &i32| a == b),
         };
         // With the parity cutoff each key's Incr<V> carries that cutoff: a change of the entry that
@@ -979,7 +1007,7 @@ pub fn run_c16_case(bytes: &[u8], tier: Tier) -> Outcome {
             KeyFn::SharedNode => "fn_shared_node",
             KeyFn::BindOnOuter => "fn_bind_on_outer_var",
         }, 1),
-        (if cutoff == 3 { "cutoff_coarser_than_equality" } else { "cutoff_equality_or_none" }, 1),
+        (match cutoff { 3 => "cutoff_coarser_than_equality", 4 => "cutoff_never", _ => "cutoff_equality_or_none" }, 1),
         (if ord { "type_OrdMap" } else { "type_BTreeMap" }, 1),
         (if filter { "op_incr_filter_mapi_" } else { "op_incr_mapi_" }, 1),
     ];
